@@ -3,11 +3,15 @@ import PyrefactModel.C17.RangeFold
 # Closed form emitted for `sum(range(a, b))` by `symbolic_math.simplify_math_iterators`
 
 The rule integrates symbolically and, for integer constants, emits the value of
-`(b - a) * (a + b - 1) / 2`.  That equals the sum only when the range is not reversed.
+`(b - a) * (a + b - 1) / 2` (`sumClosed`).  That equals the sum only when the range is not reversed; since the repair
+recorded in KNOWN_FINDINGS.txt the rule emits `0` for an empty range (`sumEmitted`).
 -/
 namespace C17
 
 def sumClosed (a b : Int) : Int := (b - a) * (a + b - 1) / 2
+
+/-- what `simplify_math_iterators` writes for `sum(range(a, b))` with integer literals -/
+def sumEmitted (a b : Int) : Int := if a ≥ b then 0 else sumClosed a b
 
 def listSum : List Int → Int
   | [] => 0
@@ -44,5 +48,10 @@ theorem two_sum_intRange (a : Int) (n : Nat) :
       rw [Int.mul_sub, Int.mul_one]
     rw [hsub]
     omega
+
+theorem intRange_empty (a b : Int) (h : b ≤ a) : intRange a b = [] := by
+  unfold intRange
+  have : (b - a).toNat = 0 := by omega
+  rw [this]; rfl
 
 end C17
